@@ -134,13 +134,15 @@ Definition name_pred (c : (N * str) * bool) : bool :=
   let '((k, t), py) := c in
   if k =? 1 then valid_name (method_name t)
   else if k =? 2 then (if forallb is_ascii t then valid_name (module_name_ascii t) else py)
-  else guard_F20a t && str_eqb (class_name (class_name t)) (class_name t).
+  else valid_name (class_name t) && str_eqb (class_name (class_name t)) (class_name t).
+(* bits 1, 2, 4 were the guards of F20b, F20c, F20a (fixed in /repo: the sanitisers no longer return an empty name or a
+   keyword); they are kept as constant true so that the bit numbering of the remaining findings is stable *)
 Definition name_guards (c : (N * str) * bool) : list bool :=
   let '((k, t), _) := c in
-  [negb (k =? 1) || has_alnum t;
-   negb (k =? 2) || has_alnum t;
+  [true;
+   true;
    negb (k =? 2) || forallb is_ascii t;
-   negb (k =? 3) || guard_F20a t;
+   true;
    negb (k =? 3) || str_eqb (class_name (class_name t)) (class_name t)].
 Definition run_names (cases : list (((N * str) * bool) * bool)) : list N :=
   report Bool.eqb name_pred name_guards cases.
